@@ -74,6 +74,25 @@ func (e *fnEnc) runTop() {
 			}
 		}
 	}
+	if c := e.contract; c != nil {
+		// likewise a site clause (at call NAME#k ..., hits("NAME#k"), lastresult("NAME#k")) whose call site is gone
+		sites := e.allSiteNames()
+		named := func(site, what string) {
+			if strings.HasSuffix(site, "#*") || !strings.Contains(site, "#") || strings.Contains(site, "@") {
+				return
+			}
+			if !sites[site] {
+				e.fail("%s names call site %s, which %s does not have", what, site, e.fn.Name())
+			}
+		}
+		for _, cl := range c.AtCalls {
+			named(cl.Site, fmt.Sprintf("at-call clause %q (%s:%d)", cl.Src, cl.File, cl.Line))
+		}
+		// (hits("NAME#k") may deliberately name a site the function does not have: hits(...) == 0 says "never called")
+		for site := range c.ResSites {
+			named(site, "a lastresult() term of the contract")
+		}
+	}
 	e.cur = map[string]string{}
 	for _, k := range vc.sortedKeyNames() {
 		e.cur[k] = vc.decl("H0!"+k, vc.keys[k].Sort)
